@@ -468,30 +468,24 @@ theorem wf_dropStep (ts : List Node) (g : LGraph) (h : WF g) : WF (dropStep g ts
     · exact wf_removeNode g t h
     · exact h
 
-theorem wf_renameOne (g g' : LGraph) (p : Node × Node) (hr : renameOne g p = some g') (h : WF g) : WF g' := by
-  unfold renameOne at hr
-  simp only at hr
-  cases hre : (g.relabel p.1 p.2).removeEdge? p.2 p.2 with
-  | none => rw [hre] at hr; cases hr
-  | some g2 =>
-    rw [hre] at hr
-    simp only [Option.some.injEq] at hr
-    have h2 : WF g2 := wf_removeEdge _ _ _ _ hre (wf_relabel g p.1 p.2 none h)
-    subst hr
-    split
-    · exact wf_removeNode g2 p.2 h2
-    · exact h2
+theorem wf_removeEdges (g : LGraph) (ps : List (Node × Node)) (h : WF g) : WF (removeEdges g ps) :=
+  ⟨fun e he => h.edges e (List.mem_filter.mp he).1, h.nodup⟩
 
-theorem wf_renameStep (ps : List (Node × Node)) (g g' : LGraph) (hr : renameStep g ps = some g') (h : WF g) : WF g' := by
-  induction ps generalizing g with
-  | nil => simp only [renameStep, Option.some.injEq] at hr; subst hr; exact h
-  | cons p r ih =>
-    simp only [renameStep] at hr
-    cases h1 : renameOne g p with
-    | none => rw [h1] at hr; cases hr
-    | some g1 =>
-      rw [h1] at hr
-      exact ih g1 hr (wf_renameOne g g1 p h1 h)
+theorem wf_renameOne (g : LGraph) (p : Node × Node) (h : WF g) : WF (renameOne g p) := by
+  unfold renameOne
+  simp only
+  split
+  · exact wf_removeNode _ p.2 (wf_relabel g p.1 p.2 none h)
+  · exact wf_relabel g p.1 p.2 none h
+
+theorem wf_renameStep (ps : List (Node × Node)) (g : LGraph) (h : WF g) : WF (renameStep g ps) := by
+  unfold renameStep
+  have gen : ∀ (l : List (Node × Node)) (G : LGraph), WF G → WF (l.foldl renameOne G) := by
+    intro l
+    induction l with
+    | nil => intro G hG; exact hG
+    | cons p r ih => intro G hG; exact ih _ (wf_renameOne G p hG)
+  exact gen ps _ (wf_removeEdges g ps h)
 
 theorem wf_rwStep (g : LGraph) (rd wr : List Node) (h : WF g) : WF (rwStep g rd wr) := by
   unfold rwStep
@@ -509,9 +503,7 @@ theorem wf_foldStep (ord : List (Node × Node) → List (Node × Node)) (g hd g'
   split at hs
   · cases hs; exact wf_dropStep _ _ hc
   · split at hs
-    · cases hr : renameStep (g.compose hd) (ord (stmtRename hd)) with
-      | none => rw [hr] at hs; cases hs
-      | some g1 => rw [hr] at hs; cases hs; exact wf_renameStep _ _ _ hr hc
+    · cases hs; exact wf_renameStep _ _ hc
     · cases hs; exact wf_rwStep _ _ _ hc
 
 theorem wf_foldAll (ord : List (Node × Node) → List (Node × Node)) (hs : List LGraph) (g g' : LGraph)
